@@ -21,8 +21,8 @@ def if_then_else(cond, truev, falsev):
     if not isinstance(cond, LinCombBool):
         raise RuntimeError("Wrong type for if_then_else condition")
 
-    if callable(truev): truev = guarded(cond)(truev)()
-    if callable(falsev): falsev = guarded(-cond)(falsev)()        
+    if callable(truev): truev = guarded(cond.lc)(truev)()
+    if callable(falsev): falsev = guarded((~cond).lc)(falsev)()
 
     if isinstance(truev, list):
         return [if_then_else(cond, truevi, falsevi) for (truevi,falsevi) in zip(truev,falsev)]
@@ -53,6 +53,13 @@ class BranchingValues:
             ret[nm] = copy.deepcopy(val)
         return ret
 
+def _boolcond(cond):
+    """ Secret branch conditions may be given as integers with value 0/1 or as booleans (e.g. comparison results) """
+    return LinCombBool(cond) if isinstance(cond, LinComb) else cond
+
+def _notcond(cond):
+    return ~cond if isinstance(cond, LinCombBool) else 1-cond
+
 class BranchContext:
     def __init__(self, cond, ctx):
         self.ctx = ctx
@@ -80,17 +87,19 @@ class BranchContext:
                 raise RuntimeError("branch set spurious value: " + nm)
         
     def enter(self, nwcond):
-        #if not isinstance(nwcond,LinComb): nwcond = LinComb.ZERO+nwcond
+        # a secret condition is merged as a boolean (if_then_else) and guarded by its underlying integer wire
+        nwcond = _boolcond(nwcond)
         self.bak = self.ctx.backup()        
         self.cond = nwcond
-        self.origguard = add_guard(nwcond)
+        self.origguard = add_guard(nwcond.lc if isinstance(nwcond, LinCombBool) else nwcond)
         
     def end(self):
         self.exit()
 
 class IfContext(BranchContext):
     def __init__(self, cond, ctx):
-        self.icond = 1-cond # should be before super().__init__ because may be guarded
+        cond = _boolcond(cond)
+        self.icond = _notcond(cond) # should be before super().__init__ because may be guarded
         super().__init__(cond, ctx)
         
     def _elif(self, nwcond):
@@ -98,8 +107,8 @@ class IfContext(BranchContext):
             raise ValueError("argument to _elif should be a function")
             
         self.exit()
-        nwcond = nwcond()
-        nwicond = self.icond&(1-nwcond) # need to calculate before entering guard
+        nwcond = _boolcond(nwcond())
+        nwicond = self.icond&_notcond(nwcond) # need to calculate before entering guard
         self.enter(self.icond&nwcond)
         self.icond = nwicond
         
